@@ -1,0 +1,106 @@
+//! Verification hooks, compiled only with `--cfg cactusref_verif`.
+//!
+//! These hooks are read-only views and counters used by an external
+//! property-based test harness. They do not change the behavior of the crate.
+
+use alloc::vec::Vec;
+use core::sync::atomic::{AtomicUsize, Ordering};
+
+use crate::link::Kind;
+use crate::Rc;
+
+/// Number of reachability traces started.
+pub static TRACE_CALLS: AtomicUsize = AtomicUsize::new(0);
+/// Number of worklist pops performed by reachability traces.
+pub static TRACE_POPS: AtomicUsize = AtomicUsize::new(0);
+/// Number of objects whose link table was scanned by reachability traces.
+pub static TRACE_VISITS: AtomicUsize = AtomicUsize::new(0);
+/// Number of link table entries scanned by reachability traces.
+pub static TRACE_EDGES: AtomicUsize = AtomicUsize::new(0);
+/// Address of the object the most recent trace started from.
+pub static TRACE_LAST_START: AtomicUsize = AtomicUsize::new(0);
+/// Number of calls of `RcBox::links` on an allocation marked uninit.
+pub static STALE_LINKS: AtomicUsize = AtomicUsize::new(0);
+/// Number of plain (no adoptions) teardowns.
+pub static DROP_PLAIN: AtomicUsize = AtomicUsize::new(0);
+/// Number of zero-count teardowns of objects with adoptions.
+pub static DROP_ADOPTED: AtomicUsize = AtomicUsize::new(0);
+/// Number of orphaned group teardowns.
+pub static DROP_CYCLE: AtomicUsize = AtomicUsize::new(0);
+/// Number of members over all orphaned group teardowns.
+pub static DROP_CYCLE_MEMBERS: AtomicUsize = AtomicUsize::new(0);
+
+#[inline]
+pub(crate) fn bump(counter: &AtomicUsize) {
+    counter.store(counter.load(Ordering::Relaxed) + 1, Ordering::Relaxed);
+}
+
+#[inline]
+pub(crate) fn add(counter: &AtomicUsize, n: usize) {
+    counter.store(counter.load(Ordering::Relaxed) + n, Ordering::Relaxed);
+}
+
+/// Snapshot of all counters in declaration order.
+#[must_use]
+pub fn counters() -> [usize; 10] {
+    [
+        TRACE_CALLS.load(Ordering::Relaxed),
+        TRACE_POPS.load(Ordering::Relaxed),
+        TRACE_VISITS.load(Ordering::Relaxed),
+        TRACE_EDGES.load(Ordering::Relaxed),
+        TRACE_LAST_START.load(Ordering::Relaxed),
+        STALE_LINKS.load(Ordering::Relaxed),
+        DROP_PLAIN.load(Ordering::Relaxed),
+        DROP_ADOPTED.load(Ordering::Relaxed),
+        DROP_CYCLE.load(Ordering::Relaxed),
+        DROP_CYCLE_MEMBERS.load(Ordering::Relaxed),
+    ]
+}
+
+/// Reset all counters to zero.
+pub fn reset() {
+    for counter in [
+        &TRACE_CALLS,
+        &TRACE_POPS,
+        &TRACE_VISITS,
+        &TRACE_EDGES,
+        &TRACE_LAST_START,
+        &STALE_LINKS,
+        &DROP_PLAIN,
+        &DROP_ADOPTED,
+        &DROP_CYCLE,
+        &DROP_CYCLE_MEMBERS,
+    ] {
+        counter.store(0, Ordering::Relaxed);
+    }
+}
+
+impl<T> Rc<T> {
+    /// Read-only snapshot of the link table of a live `Rc` in iteration order.
+    ///
+    /// Each entry is `(address of the linked allocation, kind, count)` where
+    /// kind is `0` for forward, `1` for backward and `2` for loopback links.
+    #[doc(hidden)]
+    #[must_use]
+    pub fn __verif_links(this: &Self) -> Vec<(usize, u8, usize)> {
+        let links = unsafe { this.inner().links().borrow() };
+        links
+            .iter()
+            .map(|(link, &count)| {
+                let kind = match link.kind() {
+                    Kind::Forward => 0,
+                    Kind::Backward => 1,
+                    Kind::Loopback => 2,
+                };
+                (link.as_ptr() as usize, kind, count)
+            })
+            .collect()
+    }
+
+    /// Address of the allocation backing this `Rc`, as used in link tables.
+    #[doc(hidden)]
+    #[must_use]
+    pub fn __verif_addr(this: &Self) -> usize {
+        this.ptr.as_ptr() as usize
+    }
+}
